@@ -13,20 +13,21 @@ int fprintf(FILE *f, const char *fmt, ...) { (void)f; (void)fmt; return 0; }
 #include "eval.c"
 int verif_abort_flag;
 #ifndef REPLAY
-Value create_int(long long v) { Value r; memset(&r, 0, sizeof r); r.type = VAL_INT; r.as.int_val = v; return r; }
-Value create_bool(bool v) { Value r; memset(&r, 0, sizeof r); r.type = VAL_BOOL; r.as.bool_val = v; return r; }
-Value create_void(void) { Value r; memset(&r, 0, sizeof r); r.type = VAL_VOID; return r; }
+static const Value VZ;
+Value create_int(long long v) { Value r = VZ; r.type = VAL_INT; r.as.int_val = v; return r; }
+Value create_bool(bool v) { Value r = VZ; r.type = VAL_BOOL; r.as.bool_val = v; return r; }
+Value create_void(void) { Value r = VZ; r.type = VAL_VOID; return r; }
 #endif
 static ASTNode na, nb, nop; static ASTNode *argv2[2]; static Environment env;
 void harness(void) {
     ND(int64_t, in_a); ND(int64_t, in_b); ND(uint8_t, in_p); ND(uint8_t, in_q);
 #if BOOLS
-    na.type = AST_BOOL; na.as.bool_val = in_p & 1; nb.type = AST_BOOL; nb.as.bool_val = in_q & 1;
+    na = (ASTNode){ .type = AST_BOOL, .as.bool_val = in_p & 1 }; nb = (ASTNode){ .type = AST_BOOL, .as.bool_val = in_q & 1 };
 #else
-    na.type = AST_NUMBER; na.as.number = in_a; nb.type = AST_NUMBER; nb.as.number = in_b;
+    na = (ASTNode){ .type = AST_NUMBER, .as.number = in_a }; nb = (ASTNode){ .type = AST_NUMBER, .as.number = in_b };
 #endif
     argv2[0] = &na; argv2[1] = &nb;
-    nop.type = AST_PREFIX_OP; nop.as.prefix_op.op = OPK; nop.as.prefix_op.args = argv2; nop.as.prefix_op.arg_count = NARGS;
+    nop = (ASTNode){ .type = AST_PREFIX_OP, .as.prefix_op = { .op = OPK, .args = argv2, .arg_count = NARGS } };
 #if DIVLIKE
     ASSUME(in_b != 0 && !(in_b == -1 && in_a == INT64_MIN));
 #endif
